@@ -455,4 +455,45 @@ example : ∃ buf, precompute 2 1 [(10, 1), (11, 0), (12, 1)]
           simp [List.lookup, f10, f11, f12]
         simp [e1]
 
+
+/-- Front end `precompute_summary_stats_from_h5ad_list_and_tree`
+(`leaf_to_cells` ↦ `cell_name_to_output_row`): building the table never fails
+and every output row it hands out lies inside the output arrays, whose number
+of rows `n_clusters` is the number of distinct clusters.  This discharges the
+hypothesis "rows inside the output" of `direct` for the real front end. -/
+theorem name_table_ok (l2c : List (Nat × List Nat)) :
+    ∃ tbl, nameToRowOfTree l2c = .ok tbl ∧
+      ∀ p ∈ tbl, p.2 < (uniqueSorted (l2c.map (·.1))).length := by
+  obtain ⟨tbl, h1, h2, _⟩ := nameToRowOfTree_spec l2c
+  exact ⟨tbl, h1, h2⟩
+
+example : nameToRowOfTree [(5, [10, 12]), (3, [11]), (5, [13])]
+    = .ok [(10, 1), (12, 1), (11, 0), (13, 1)] := by
+  decide +kernel
+
+/-- "addressed through its own cluster-to-row ... tables; cells not named by
+the taxonomy contribute nothing": when the cell lists of the leaves are
+pairwise disjoint (what `validate_taxonomy_tree` guarantees), every cell of
+leaf `leaf` is sent to the rank of `leaf` in the sorted list of distinct
+clusters (the file's `cluster_to_row`), and a cell in no list is not in the
+table at all (so `rowOf = none`: it contributes to no row). -/
+theorem name_table_lookup (l2c : List (Nat × List Nat))
+    (hdisj : l2c.Pairwise (fun a b => ∀ c ∈ a.2, c ∉ b.2)) :
+    ∃ tbl, nameToRowOfTree l2c = .ok tbl ∧
+      (∀ q ∈ l2c, ∀ c ∈ q.2, ∃ r, tbl.lookup c = some r ∧
+        indexIn (uniqueSorted (l2c.map (·.1))) q.1 = some r ∧
+        r < (uniqueSorted (l2c.map (·.1))).length) ∧
+      (∀ c, (∀ q ∈ l2c, c ∉ q.2) → tbl.lookup c = none) := by
+  obtain ⟨tbl, h1, _, h3, h4⟩ := nameToRowOfTree_spec l2c
+  refine ⟨tbl, h1, fun q hq c hc => ?_, h3⟩
+  have hmem : q.1 ∈ uniqueSorted (l2c.map (·.1)) := by
+    rw [mem_uniqueSorted]; exact List.mem_map_of_mem hq
+  obtain ⟨r, hr⟩ := indexIn_of_mem _ _ hmem
+  exact ⟨r, by rw [h4 hdisj q hq c hc, hr], hr, indexIn_lt _ _ _ hr⟩
+
+example : (nameToRowOfTree [(5, [10, 12]), (3, [11])]).toOption.map
+      (fun tbl => (tbl.lookup 12, tbl.lookup 11, tbl.lookup 99))
+    = some (some 1, some 0, none) := by
+  decide +kernel
+
 end CTM.C09
